@@ -287,6 +287,16 @@ def run_pair(sess, pair: list[dict]) -> dict:
 
 
 def pair_simplifications(pair: list[dict]):
+    for what, (na, nb) in _pair_simplifications(pair):
+        if na.get("source") == "disk":
+            # the earlier run in the same working directory stays the identical run
+            pre = copy.deepcopy(na)
+            pre.pop("source", None)
+            nb["prefix"] = pre
+        yield what, [na, nb]
+
+
+def _pair_simplifications(pair: list[dict]):
     a, b = pair
     cfg = a["config"]
     phases = [p for p in cfg["phases"]]
